@@ -1,7 +1,7 @@
-\* file mode (SyncTrace): validates recorded real syncs read from SYNC_IN (NDJSON, one record per line); verdicts to SYNC_OUT. PROP selects the requirement set
+\* command line trace validation: recorded `signac sync` executions (SYNC_IN: the library record with cmd instead of o, plus exit, skipped, nstat) -> verdicts (SYNC_OUT)
 \* run: SYNC_OUT=/tmp/cases.ndjson [SYNC_IN=/tmp/recs.ndjson] tlc -workers 1 -seed N -config SyncTrace.cfg Sync.tla   (the drivers generate the same text)
 CONSTANTS
-  MODE = "file"
+  MODE = "clifile"
   PROP = "C13"
   NCASE = 1
   FULLOPT = FALSE
